@@ -45,6 +45,7 @@ def run(model, rep, tier):
     # computed after everything that can record (shared with C02.R1)
     from . import c02 as _c02
     _c02.r1_verdict_expression(ctx, rep, R='C04.R18')
+    r19_chain_walks_test_for_the_end(ctx, rep)
     r12_nullable_results(ctx, rep)
     r13_user_exceptions_not_hashed(ctx, rep)
     r14_no_user_text_as_format_string(ctx, rep)
@@ -1042,3 +1043,67 @@ def r16_exception_values_classified_by_base(ctx, rep, R='C04.R16'):
                       where=ctx.where(fi, c))
     rep.ok(R, '%d type tests against Exception / BaseException in the package; none classifies an '
            'exception value by Exception' % n)
+
+
+# attributes that link a chain which ENDS in None (every traceback, every frame stack, every
+# exception chain has a last element)
+CHAIN_LINKS = ('tb_next', 'f_back', '__cause__', '__context__', '__traceback__')
+
+
+def r19_chain_walks_test_for_the_end(ctx, rep, R='C04.R19'):
+    from .common import is_name
+    """A loop that advances along such a chain (``x = x.tb_next``) reaches None after the last
+    element.  Its condition must therefore test x for None / truth BEFORE it dereferences x -- the
+    traceback of an exception raised by a builtin that unittest itself calls (a failing
+    ``addCleanup(os.rmdir, d)``) consists of unittest frames only, so "skip the unittest frames"
+    runs off the end and the AttributeError escapes from the result callback."""
+    rep.rule(R, 'no report of a failure fails on the traceback itself: a while loop that advances a name '
+             'along a None-terminated chain (x = x.tb_next / f_back / __cause__ / __context__) tests that name '
+             'for None (or truth) in its condition before any attribute of it is read')
+    m = ctx.model
+    n = 0
+    for fi in m.all_functions():
+        if fi.module.name.startswith('tests'):
+            continue
+        for w in ast.walk(fi.node):
+            if not isinstance(w, ast.While):
+                continue
+            adv = [x for x in ast.walk(w) if isinstance(x, ast.Assign) and len(x.targets) == 1 and
+                   isinstance(x.targets[0], ast.Name) and isinstance(x.value, ast.Attribute) and
+                   x.value.attr in CHAIN_LINKS and is_name(x.value.value, x.targets[0].id)]
+            for a in adv:
+                n += 1
+                x = a.targets[0].id
+                # the condition, read left to right: a None / truth test of x must come before the first
+                # attribute read of x
+                order = []
+                t = w.test
+                parts = t.values if isinstance(t, ast.BoolOp) and isinstance(t.op, ast.And) else [t]
+                guarded = False
+                for p in parts:
+                    q = p
+                    while isinstance(q, ast.UnaryOp) and isinstance(q.op, ast.Not):
+                        q = q.operand
+                    is_test = is_name(q, x) or (isinstance(q, ast.Compare) and len(q.ops) == 1 and
+                                               isinstance(q.ops[0], (ast.IsNot, ast.NotEq)) and is_name(q.left, x) and
+                                               isinstance(q.comparators[0], ast.Constant) and
+                                               q.comparators[0].value is None)
+                    if is_test:
+                        guarded = True
+                        break
+                    if any(isinstance(y, ast.Attribute) and is_name(y.value, x) for y in ast.walk(p)):
+                        break
+                # ``while True: ... if x is None: break`` before the advance is fine too
+                if not guarded and isinstance(t, ast.Constant) and t.value is True:
+                    for st in w.body:
+                        if st is a or any(y is a for y in ast.walk(st)):
+                            break
+                        if isinstance(st, ast.If) and any(isinstance(y, (ast.Break, ast.Return)) for y in ast.walk(st)) \
+                                and any(is_name(y, x) for y in ast.walk(st.test)):
+                            guarded = True
+                rep.check(guarded, R, '%s: the walk along .%s stops at None' % (fi.qualname, a.value.attr),
+                          '%s advances %s = %s in a loop whose condition (%s) reads an attribute of %s without '
+                          'testing it for None first: after the last element the AttributeError escapes from '
+                          'the code that reports a failure' % (fi.qualname, x, norm(a.value), norm(t)[:50], x),
+                          key='chain-end:%s:%s' % (fi.qualname, x), func=fi.qualname, where=ctx.where(fi, w))
+    rep.ok(R, '%d loops that advance along a None-terminated chain; each tests for the end first' % n)
